@@ -104,13 +104,13 @@ func c04Extensions() [][]int {
 func c04Random(r *ev.Rand) *hx.Script {
 	s := &hx.Script{SB: []uint8{0, 2, 3}[r.Intn(3)]}
 	nobj := r.Range(2, 6)
-	var dss, groups, denseGroups []string
+	var dss, groups, denseGroups, linkObjs []string
 	resizable := map[string]uint64{}
 	created := 0
 	nops := r.Range(3, 14)
 	attrN := map[string]int{}
 	for len(s.Ops) < nops {
-		k := r.Weighted([]int{3, 3, 6, 2, 2, 2, 2})
+		k := r.Weighted([]int{3, 3, 6, 2, 2, 2, 2, 1})
 		if created < 2 {
 			k = 0
 		}
@@ -196,8 +196,16 @@ func c04Random(r *ev.Rand) *hx.Script {
 			}
 			v := hx.GenNumeric(r, "[]"+dt, int(n), 3)
 			s.Ops = append(s.Ops, hx.Op{K: "write", Path: t, Data: &v})
+		case 7: // soft / external link object (itself an object that can be a hard-link target)
+			p := fmt.Sprintf("/ln%d", len(s.Ops))
+			if r.Bool() {
+				s.Ops = append(s.Ops, hx.Op{K: "softlink", Path: p, Target: "/d0"})
+			} else {
+				s.Ops = append(s.Ops, hx.Op{K: "extlink", Path: p, File: "other.h5", Target: "/x"})
+			}
+			linkObjs = append(linkObjs, p)
 		case 5: // hard link to an object
-			all := append(append(append([]string(nil), dss...), groups...), denseGroups...)
+			all := append(append(append(append([]string(nil), dss...), groups...), denseGroups...), linkObjs...)
 			t := all[r.Intn(len(all))]
 			s.Ops = append(s.Ops, hx.Op{K: "hardlink", Path: fmt.Sprintf("/hl%d", len(s.Ops)), Target: t})
 		case 6: // resize
@@ -476,9 +484,9 @@ var C04 = &ev.Property{
 	},
 	Cases: func(tier string) int {
 		if tier == "thorough" {
-			return 2688 + 2000
+			return 2688 + 10000
 		}
-		return 200 + 150
+		return 200 + 1000
 	},
 	Run:   c04Run,
 	Floor: func(tier string) int64 { return 50 },
